@@ -508,6 +508,17 @@ pub fn run(tier: Tier) -> i32 {
     ].iter().enumerate() {
         edocs.push((format!("<svg>{d}</svg>"), format!("namespaced-svg-ids/{k}")));
     }
+    // (fifth review round) the x / y of a plain <use> are kept as written whatever its target is and wherever that is drawn
+    for (k, d) in [
+        "<svg id=\"s\"><rect x=\"10\" y=\"20\" width=\"5\" height=\"5\"/></svg><use x=\"1\" y=\"2\" href=\"#s\"/>",
+        "<svg id=\"s\" width=\"100%\"><rect x=\"10\" y=\"20\" width=\"5\" height=\"5\"/></svg><use x=\"1\" y=\"2\" href=\"#s\"/>",
+        "<path id=\"p\" d=\"M74.9795 84.4881L120 130\"/><use href=\"#p\" x=\"1\" y=\"2.5\"/>",
+        "<rect id=\"r\" x=\"10\" y=\"3\" width=\"7\" height=\"5\" transform=\"rotate(31)\"/><use href=\"#r\" x=\"1\" y=\"2\"/>",
+        "<polygon id=\"q\" points=\"39.9583 7.1234 50 20 30 20\"/><use href=\"#q\" x=\"39.96\" y=\"0.5\"/>",
+        "<circle id=\"c\" cx=\"3.3333\" cy=\"4.4444\" r=\"2.2222\"/><use href=\"#c\" x=\"10\" y=\"20\"/>",
+    ].iter().enumerate() {
+        edocs.push((format!("<svg>{d}</svg>"), format!("plain-use-position/{k}")));
+    }
     let st = run_space(edocs.len(), |i| check(&edocs[i].0, "references", &edocs[i].1));
     rep.sample(json!({"leg": "references", "doc": edocs[edocs.len() / 2].0}));
     rep.absorb("references", st);
